@@ -41,6 +41,10 @@ func c02Stream(cs *drv.Case, vals []ref.Value, encs [][]byte, trail []byte, sche
 			src.ZeroRun = 1 + cs.R.Intn(3) // many empty reads inside one value, with progress in between
 			src.Budget += src.ZeroRun * (len(stream) + 100)
 		}
+		if len(stream) > 1<<20 && sched == doubles.SchedHuge {
+			// few, huge reads: let the reader churn every size class up to 8 MiB
+			src.Churn = func() { san.PoolChurn(8 << 20) }
+		}
 		if len(stream) <= 3000 && sched != doubles.SchedOne && cs.R.Intn(2) == 0 {
 			// the reader itself uses the shared pool for scratch space while the decoder is mid-value
 			src.Churn = func() { san.PoolChurn(8192) }
@@ -199,6 +203,26 @@ func monC02(c *drv.Ctx) {
 		}
 		if r.Intn(4) == 0 {
 			polluteCodecPools(cs)
+		}
+		if r.Intn(8) == 0 {
+			// the exported SkipN of a decoder fresh from the pool starts at the reader's position
+			data := gen.Bytes(r, 16+r.Intn(40))
+			nb := &doubles.NBReader{B: data}
+			d := thrift.NewSkipDecoder(nb)
+			b1, e1 := d.SkipN(4)
+			b2, e2 := d.SkipN(3)
+			d.Release()
+			if e1 != nil || e2 != nil || !bytes.Equal(b1, data[:4]) || !bytes.Equal(b2, data[4:7]) {
+				cs.Fail("skipn-on-fresh-decoder", M{"skipper": "SkipDecoder.SkipN"}, M{"message": fmt.Sprintf("SkipN(4), SkipN(3) on a decoder obtained from the pool returned %x (%v), %x (%v); want %x, %x", b1, e1, b2, e2, data[:4], data[4:7])})
+				return
+			}
+			bd := thrift.NewBytesSkipDecoder(data)
+			b3, e3 := bd.SkipN(5)
+			bd.Release()
+			if e3 != nil || !bytes.Equal(b3, data[:5]) {
+				cs.Fail("skipn-on-fresh-decoder", M{"skipper": "BytesSkipDecoder.SkipN"}, M{"message": fmt.Sprintf("SkipN(5) returned %x (%v), want %x", b3, e3, data[:5])})
+				return
+			}
 		}
 		nv := 1 + r.Intn(3)
 		var vals []ref.Value
